@@ -569,12 +569,21 @@ func c08Get(c *Ctx, p *Prog) {
 		return
 	}
 	okIdx, okEmpty := false, false
+	safe := c08SafeAt(p)
 	for _, b := range fn.Blocks {
 		ret, ok := b.Instrs[len(b.Instrs)-1].(*ssa.Return)
 		if !ok {
 			continue
 		}
 		v := retVal(ret, 0)
+		// through a bounds-checked accessor of the package: at(vals, field.idx)
+		if call, ok := v.(*ssa.Call); ok && safe[call.Call.StaticCallee()] && len(call.Call.Args) == 2 {
+			vf, _ := loadOfField(call.Call.Args[0])
+			lf, _ := loadOfField(call.Call.Args[1])
+			if vf == valsF && lf == idxF {
+				okIdx, okEmpty = true, true
+			}
+		}
 		if s, isC := constString(v); isC && s == "" {
 			for _, f := range factsAt(b) {
 				if bo, ok := f.Cond.(*ssa.BinOp); ok && ((bo.Op == token.GEQ && f.True) || (bo.Op == token.LSS && !f.True)) {
@@ -635,8 +644,16 @@ func c08ValueAccess(c *Ctx, p *Prog) {
 		"(*benchproc.keyNode).equalRow": "compares the stored values with a row of the same (trimmed) length",
 	}
 	n := 0
+	safe := c08SafeAt(p)
 	for _, fn := range p.Funcs("benchproc") {
 		eachInstr(fn, func(b *ssa.BasicBlock, in ssa.Instruction) {
+			if call, ok := in.(*ssa.Call); ok && safe[call.Call.StaticCallee()] && len(call.Call.Args) == 2 {
+				if f, _ := loadOfField(call.Call.Args[0]); f == valsF {
+					n++
+					c.OK(R, fmt.Sprintf("%s:reads-vals-through-%s#%d", fnName(fn), call.Call.StaticCallee().Name(), n), p.pos(call.Pos()), "read through a bounds-checked accessor that supplies \"\" beyond the stored values")
+				}
+				return
+			}
 			ia, ok := in.(*ssa.IndexAddr)
 			if !ok {
 				return
@@ -702,4 +719,63 @@ func c08ValueAccess(c *Ctx, p *Prog) {
 		}
 	}
 	c.Floor(R, "direct reads of a key's stored values", n, 2)
+}
+
+// c08SafeAt: the bounds-checked element accessors of benchproc: func(vals []string, i int) string that returns vals[i] on
+// exactly the paths where i < len(vals) is known and "" on all others.
+func c08SafeAt(p *Prog) map[*ssa.Function]bool {
+	out := map[*ssa.Function]bool{}
+	for _, fn := range p.Funcs("benchproc") {
+		if fn.Parent() != nil || fn.Signature.Recv() != nil || len(fn.Params) != 2 || fn.Signature.Results().Len() != 1 || !isString(fn.Signature.Results().At(0).Type()) {
+			continue
+		}
+		sl, ok := fn.Params[0].Type().Underlying().(*types.Slice)
+		if !ok || !isString(sl.Elem()) || !isInteger(fn.Params[1].Type()) || len(naturalLoops(fn)) > 0 {
+			continue
+		}
+		good, nRet := true, 0
+		for _, b := range fn.Blocks {
+			ret, ok := b.Instrs[len(b.Instrs)-1].(*ssa.Return)
+			if !ok {
+				continue
+			}
+			nRet++
+			v := retVal(ret, 0)
+			if s, isC := constString(v); isC && s == "" {
+				continue
+			}
+			okElem := false
+			if la := loadAddr(v); la != nil {
+				if ia, ok := la.(*ssa.IndexAddr); ok && ia.X == ssa.Value(fn.Params[0]) && ia.Index == ssa.Value(fn.Params[1]) {
+					for _, f := range factsAt(b) {
+						bo, ok := f.Cond.(*ssa.BinOp)
+						if !ok {
+							continue
+						}
+						isLen := func(v ssa.Value) bool {
+							call, ok := v.(*ssa.Call)
+							if !ok {
+								return false
+							}
+							bi, ok := call.Call.Value.(*ssa.Builtin)
+							return ok && bi.Name() == "len" && call.Call.Args[0] == ssa.Value(fn.Params[0])
+						}
+						i := ssa.Value(fn.Params[1])
+						switch {
+						case bo.X == i && isLen(bo.Y) && ((bo.Op == token.LSS && f.True) || (bo.Op == token.GEQ && !f.True)),
+							isLen(bo.X) && bo.Y == i && ((bo.Op == token.GTR && f.True) || (bo.Op == token.LEQ && !f.True)):
+							okElem = true
+						}
+					}
+				}
+			}
+			if !okElem {
+				good = false
+			}
+		}
+		if good && nRet >= 2 {
+			out[fn] = true
+		}
+	}
+	return out
 }
